@@ -463,7 +463,7 @@ def check_sessions(ck, scenarios):
             df = drive.read_data_file(data_file if adapter['kind'] != 'perf' else data_file + '.none')
             marker_of_id = {}
             for rid, meta in df['run_meta']:
-                marker_of_id[rid] = marker_of(meta.get('extraArgs', '') or '', n)
+                marker_of_id[rid] = marker_of((meta.get('cmdline', '') or '') + ' ' + str(meta.get('extraArgs', '') or ''), n)
             recorded = dict((m, []) for m in by_marker)
             for row in df['rows']:
                 m = marker_of_id.get(int(row[-1]))
@@ -589,7 +589,7 @@ def check_real(ck, scenarios):
                   'sessions': [{'plan': False,
                                 'outcomes': [['ok'] * len(seen['m%dm' % j]) for j in range(len(names))]}]}
 
-            def compare(ans, seen=seen, names=names, info=info, inp=inp, wd=wd):
+            def compare(ans, seen=seen, names=names, info=info, inp=inp, wd=wd, by_marker=by_marker):
                 events = ans[0]
                 for j in range(len(names)):
                     m = 'm%dm' % j
@@ -599,7 +599,7 @@ def check_real(ck, scenarios):
                                     len(seen.get(m, [])), len(model_starts), THEOREMS_LAUNCH)
                     for e, ms in zip(seen.get(m, []), model_starts):
                         child_env = dict((a, b) for a, b in e['env'].items()
-                                         if a not in dc.SH_ADDS or a in info['env'])
+                                         if a not in dc.SH_ADDS or a in dc.env_of(info, by_marker[m]))
                         m_env = dict((a, b) for a, b in ms['env'])
                         if ms['argv'][1:] != e['argv'] or m_env != child_env or \
                                 os.path.realpath(ms['cwd'] or wd) != os.path.realpath(e['cwd']):
@@ -618,7 +618,7 @@ def check_real(ck, scenarios):
                 for k, e in enumerate(seen[m]):
                     spec = dc.spec_launch(info, run, k + 1, wd, home, users_dict())
                     child_env = dict((a, b) for a, b in e['env'].items()
-                                     if a not in dc.SH_ADDS or a in info['env'])
+                                     if a not in dc.SH_ADDS or a in dc.env_of(info, by_marker[m]))
                     if spec is None:
                         continue
                     command_oracle(ck, inp, info, run, k + 1, wd, None, 'fake harness',
